@@ -44,7 +44,15 @@ def book_gen(ck, name, cfg=GEN_DRAIN, need=(), timeout=600, workers=12, **kw):
     extra = {}
     if "trunc_every" in kw:
         extra["trunc_every"] = c.pop("trunc_every")
+    if "price_offset" in kw:
+        extra["price_offset"] = c.pop("price_offset")
     return ck.gen(name, "BookGen", c, "replay_book", rb_args(c, **extra), cfg=cfg, need=need, timeout=timeout, workers=workers)
+
+
+def high(tick, pmax):
+    """Offset of the high-price regime: the largest multiple of the tick size that keeps every price of the
+    alphabet strictly below Price::MAX (the top price of the alphabet lands on the last grid point below it)."""
+    return ((2 ** 32 - 2 - pmax) // tick) * tick
 
 
 def book_mc(ck, name, inv=ALL_INV, act=ALL_ACT, timeout=600, workers=12, **kw):
@@ -59,6 +67,67 @@ def impl_mc(ck, name, timeout=600, workers=12, **kw):
     matching loop) driven in lock-step with the reference engine; TLC checks Matches / ImplConsistent after every call."""
     c = bc(**dict(dict(FixTies=True, NLevels=2), **kw))
     return ck.mc(name, "BookImplMC", c, invariants=IMPL_INV, properties=(), timeout=timeout, workers=workers)
+
+
+# ---------------------------------------------------------------------------------------------
+# Cross-feature stages.  The book-level properties quantify over EVERY operation sequence; a change can need the feature
+# one property is about combined with the feature another is about (equal timestamps under a modify, a snapshot after a
+# counter reset, a re-priced order on a book that was crossed while trading was off, ...).  Each stage below is one such
+# combination as a compact exhaustive generator config; the checks of the properties whose text covers the combination
+# include it (section 13 of DESIGN.md says which seeded change motivated which).
+def cross(ck, q, *names):
+    for nm in names:
+        if nm == "ties":
+            # every queue insertion ties (the clock never advances): placements, market orders, cancels on one or two levels
+            book_gen(ck, "x_ties", Ops=["cap", "cancel"], Dts=[0], Discipline=False, Prices=[10, 11], Vols=[1, 2], Kinds=["L", "M"],
+                     MaxOrders=3 if q else 4, MaxOps=4 if q else 5, need=("has_trade", "dt0", "cancelled_order"), timeout=300 if q else 1500)
+        elif nm == "ties_deep":
+            # one price level, up to four orders per side queued in one instant or one tick apart, removals from the front and
+            # the middle, later arrivals: the queue order behind a removed order
+            book_gen(ck, "x_ties_deep", Ops=["cap", "cancel"], Dts=[0, 1], Discipline=False, Prices=[10], Vols=[1], Kinds=["L", "M"],
+                     Sides=["B", "A"], MaxOrders=4 if q else 5, MaxOps=5 if q else 6, need=("has_trade", "dt0", "cancelled_order"),
+                     timeout=300 if q else 1500)
+        elif nm == "ties_modify":
+            # re-queuing modifications that tie with placements (clock advance 0 or 1)
+            book_gen(ck, "x_ties_modify", Ops=["cap", "modify"], Dts=[0, 1], Discipline=False, Kinds=["L"], Prices=[10, 11], Vols=[1, 2],
+                     ModPrices=[-1, 11] if q else [-1, 10, 11], ModVols=["none", "smaller", "equal"], MaxOrders=3, MaxOps=4,
+                     need=("op_modify", "dt0", "has_trade"), timeout=300 if q else 1500)
+        elif nm == "off_modify":
+            # books that were crossed while trading was disabled, trading re-enabled, then every modify shape
+            book_gen(ck, "x_off_modify", Ops=["cap", "modify", "enable"], Trading0=False, Kinds=["L"], Prices=[10, 11], Vols=[1, 2],
+                     ModPrices=[-1, 10, 11], ModVols=["none", "smaller", "larger"], MaxOrders=2 if q else 3, MaxOps=4 if q else 5,
+                     need=("op_modify", "op_enable", "crossed", "has_trade"), timeout=300 if q else 1500)
+        elif nm == "reload_resettv":
+            # snapshots after a reset of the traded-volume counter
+            book_gen(ck, "x_reload_resettv", cfg=GEN, Ops=["cap", "resettv", "reload"], Prices=[10], Vols=[1, 2], Kinds=["L"], MaxOrders=3,
+                     MaxOps=4 if q else 5, need=("op_reload", "op_resettv", "has_trade"), timeout=300 if q else 1500)
+        elif nm == "split_modify":
+            # requests against orders that were created but not placed yet (modify / cancel before the placement), as a shuffled
+            # step can produce them
+            book_gen(ck, "x_split_modify", Ops=["create", "place", "modify", "cancel", "cap"], Kinds=["L"], Prices=[10, 11], Vols=[1, 2],
+                     ModPrices=[-1, 11], ModVols=["none", "smaller", "larger"], MaxOrders=2 if q else 3, MaxOps=4 if q else 5,
+                     need=("op_modify", "unplaced_order", "has_trade"), timeout=300 if q else 1500)
+        elif nm == "market_toggle_reload":
+            # the trading switch of a multi-asset market across snapshots
+            mkt_gen(ck, "x_market_toggle_reload", Ticks=(1, 1), Ops=["cap", "disable", "enable", "reload"], Kinds=["L", "M"], Prices=[10],
+                    Vols=[1], MaxOrders=2, MaxOps=4 if q else 5, need=("op_reload", "has_trade"), timeout=300 if q else 1500)
+        else:
+            raise ToolError("unknown cross stage " + nm)
+
+
+def inductive(ck, q, n_quick=3, n_thorough=4, bg=True):
+    """Unbounded-in-the-numbers half of C01 / C02 / C04 / C12: BookInd.tla's invariant (queues sorted by price then queuing order,
+    queues = the active limit orders, never crossed while trading was never off, volumes / statuses, on grid) is inductive for
+    every state of <= N orders with prices, volumes and counters ranging over all integers (Apalache); TLC ties BookInd.tla to
+    the reference engine BookOps.tla in lock-step (BookIndMC.tla)."""
+    ck.mc("mc_ind_lockstep", "BookIndMC", dict(N=3, Tick=1, MaxPrice=MAXPRICE, Prices=[10, 11], Vols=[1, 2], MaxOps=4 if q else 5),
+          invariants=["Inv_Agree", "Inv_IndInv"], constraint=None, spec=("INIT MInit", "NEXT MNext"), timeout=300 if q else 1200)
+    ck.apalache("apa_base", "BookInd", "ConstInit3", "IndInv", length=0, timeout=300, what="Init => IndInv")
+    ck.apalache("apa_hypothesis_is_rich", "BookInd", "ConstInit3", "Sanity_FewQueued", init="IndInit", length=0, timeout=300, expect="Error",
+                what="vacuity guard: IndInit admits three queued bids at distinct prices with large volumes (the sanity invariant must be refuted)")
+    n = n_quick if q else n_thorough
+    (ck.apalache_bg if bg else ck.apalache)("apa_inductive_step", "BookInd", "ConstInit%d" % n, "IndInv", init="IndInit", length=1,
+                                            timeout=900 if q else 7200, what="IndInv /\\ Next => IndInv', N = %d orders, Tick in {1, 2, 5}" % n)
 
 
 def setup():
@@ -86,8 +155,12 @@ def c01(tier, seed):
     book_gen(ck, "gen_split_api", Ops=["create", "place", "cancel", "event", "settime"], Dts=[0, 1], Tick=3, NLevels=2,
              Prices=[9, 12], Vols=[1, 2] if q else [1, 2, 3], Kinds=["L", "M"], MaxOrders=2 if q else 3, MaxOps=4 if q else 5,
              need=("has_trade", "unplaced_order"), timeout=300 if q else 1500)
+    cross(ck, q, "ties", "ties_deep", "split_modify")
     # long random histories over wide alphabets, recorded from the real code and validated by TLC
     ck.traces_stage("rand", "record_book", {"discipline": True}, files=8 if q else 64, runs=2 if q else 4, ops=300)
+    # the same without the clock discipline: half of the queue insertions tie
+    ck.traces_stage("rand_ties", "record_book", {"discipline": False, "p_tie": 0.5, "nprices": 6, "audit_every": 25, "w": {"modify": 2}},
+                    files=4 if q else 32, runs=2 if q else 4, ops=300)
     return ck.finish("model_checking", LEVEL_TEXT,
                      "histories: every path of the bounded generator configs (one TLC state = one history) plus seeded random "
                      "runs; non-trivial = generated histories containing at least one trade + recorded events with trades",
@@ -102,6 +175,7 @@ def c02(tier, seed):
     ck = Check("C02", tier, seed)
     q = ck.quick
     inv = ["Inv_C02_ViewsAgree", "Inv_C02_ViewsConsistent", "Inv_C02_NotCrossed", "Inv_C12_LevelsAccount", "Inv_C01_QueueSorted"]
+    inductive(ck, q)
     book_mc(ck, "mc_views", inv=inv, act=[], Ops=["cap", "cancel", "modify", "disable", "enable"], Dts=[1], NLevels=3,
             ModPrices=[-1, 10, 12], ModVols=MODV, MaxOrders=3, MaxOps=4 if q else 5, timeout=300 if q else 1200)
     # the views as the getters compute them from the incrementally maintained structures (BookImpl.tla) equal the
@@ -113,8 +187,18 @@ def c02(tier, seed):
              Prices=[10, 12, 14], ModPrices=[-1, 14], ModVols=["smaller", "larger"], Kinds=["L"] if q else ["L", "M"],
              MaxOrders=3, MaxOps=4 if q else 5, need=("two_sided", "crossed", "resting_partially_filled_or_resized"),
              timeout=300 if q else 1500)
+    # the same alphabet at the top of the price range (prices 2^32 - 6 .. 2^32 - 2): key arithmetic (bids keyed by
+    # MAX - price), level walks that wrap past the maximum price, the mid-price of two large prices, snapshots
+    book_gen(ck, "gen_views_high", cfg=GEN_DRAIN, Ops=["cap", "cancel", "modify", "reload"], Tick=2, NLevels=3,
+             Prices=[10, 12, 14], ModPrices=[-1, 10], ModVols=["smaller"], Kinds=["L", "M"], price_offset=high(2, 14),
+             MaxOrders=3, MaxOps=3 if q else 5, need=("two_sided", "has_trade"), timeout=300 if q else 1500)
+    # limit prices that coincide with a sentinel: bids and asks at price 0 (= "no bid", and the price carried by a market sell)
+    book_gen(ck, "gen_views_edge_prices", cfg=GEN_DRAIN, Ops=["cap", "cancel", "modify"], Tick=1, NLevels=2,
+             Prices=[0, 1, 2], ModPrices=[-1, 0], ModVols=["smaller"], Kinds=["L", "M"],
+             MaxOrders=3, MaxOps=3 if q else 4, need=("two_sided", "has_trade"), timeout=300 if q else 1500)
     book_gen(ck, "gen_views_reload", cfg=GEN, Ops=["cap", "cancel", "reload"], NLevels=1, Prices=[10, 11], Vols=[1, 3],
              MaxOrders=3, MaxOps=4 if q else 5, need=("two_sided", "op_reload"), timeout=300 if q else 1500)
+    cross(ck, q, "ties_deep", "ties_modify", "split_modify")
     # every event of random histories: logged views = views recomputed by TLC from the logged order table alone
     prof = {"discipline": True, "audit_every": 1, "w": {"toggle": 0.6, "reload": 0.4, "modify": 4}}
     ck.traces_stage("rand_views", "record_book", prof, files=8 if q else 64, runs=3 if q else 6, ops=120)
@@ -133,7 +217,8 @@ def c03(tier, seed):
     book_gen(ck, "gen_ledger", cfg=GEN, Ops=["cap", "cancel", "modify", "resettv"], Prices=[10, 11], Vols=[1, 3],
              ModPrices=[-1, 10, 11], ModVols=["smaller", "larger"], MaxOrders=3, MaxOps=4 if q else 5,
              need=("has_trade", "multi_trade", "op_resettv", "op_modify"), timeout=300 if q else 1500)
-    prof = {"discipline": True, "audit_every": 10, "w": {"toggle": 0.5, "resettv": 1.5, "modify": 5}}
+    cross(ck, q, "reload_resettv", "ties", "off_modify")
+    prof = {"discipline": True, "audit_every": 10, "w": {"toggle": 0.5, "resettv": 1.5, "modify": 5, "reload": 0.5}}
     ck.traces_stage("rand_ledger", "record_book", prof, files=8 if q else 64, runs=2 if q else 4, ops=300)
     return ck.finish("model_checking", LEVEL_TEXT, RULE + "histories / events with at least one trade",
                      ("gen_ledger.has_trade", "rand_ledger.events_with_trades"))
@@ -158,6 +243,7 @@ def c04(tier, seed):
     book_gen(ck, "gen_requests_off", cfg=GEN, Ops=["cap", "place", "cancel", "modify", "event", "enable"], Trading0=False,
              Prices=[10], Vols=[1], ModPrices=[-1, 10], ModVols=["none", "equal", "larger"], MaxOrders=2, MaxOps=4 if q else 5,
              need=("rejected_order",), timeout=300 if q else 1500)
+    cross(ck, q, "ties", "ties_modify", "split_modify")
     prof = {"discipline": True, "p_redundant": 0.3, "audit_every": 25, "w": {"toggle": 0.4, "settime": 1.5, "place": 4, "create": 3}}
     ck.traces_stage("rand_redundant", "record_book", prof, files=8 if q else 64, runs=2 if q else 4, ops=300)
     return ck.finish("model_checking", LEVEL_TEXT, RULE + "recorded redundant requests + generated histories with a cancelled order",
@@ -217,8 +303,11 @@ def c06(tier, seed):
              timeout=300 if q else 1500)
     book_gen(ck, "gen_modify_cancel_mkt", Ops=["cap", "modify", "cancel"], Prices=[10, 11], ModPrices=[-1, 10, 11],
              ModVols=MODV, MaxOrders=3 if q else 4, MaxOps=4 if q else 5, need=("op_modify", "cancelled_order"), timeout=300 if q else 1500)
+    cross(ck, q, "ties_modify", "off_modify", "split_modify")
     prof = {"discipline": True, "audit_every": 25, "nprices": 8, "w": {"modify": 8, "event": 4, "cancel": 2}}
     ck.traces_stage("rand_modify", "record_book", prof, files=8 if q else 64, runs=2 if q else 4, ops=300)
+    prof = {"discipline": False, "p_tie": 0.5, "audit_every": 25, "nprices": 5, "w": {"modify": 8, "toggle": 0.5}}
+    ck.traces_stage("rand_modify_ties", "record_book", prof, files=4 if q else 32, runs=2 if q else 4, ops=300)
     return ck.finish("model_checking", LEVEL_TEXT, RULE + "generated histories containing a modify + recorded modify calls",
                      ("gen_modify.op_modify", "gen_modify_cancel_mkt.op_modify", "rand_modify.op_modify"))
 
@@ -264,6 +353,12 @@ def c12(tier, seed):
     # the largest representable price as an explicit limit (2^32 - 1 is off the grid of tick 2)
     book_gen(ck, "gen_create_max", cfg=GEN, Ops=["cap", "create", "place"], Tick=2, Prices=[10, MAXPRICE], Vols=[1], MaxOrders=3,
              MaxOps=3 if q else 4, need=("create_rejected",), timeout=300)
+    # the ends of the price range: the lowest grid prices (levels reaching price 0, tick 2, four published levels) and
+    # the grid points just below the maximum price (high-price regime, DESIGN.md 3.6): the per-level data accounts for all resting volume
+    book_gen(ck, "gen_levels_low", cfg=GEN, Ops=["cap", "cancel"], Tick=2, NLevels=4, Prices=[0, 2, 6], Vols=[1, 2], Kinds=["L"],
+             MaxOrders=3, MaxOps=3 if q else 4, need=("two_sided",), timeout=300)
+    book_gen(ck, "gen_levels_high", cfg=GEN, Ops=["cap", "cancel"], Tick=3, NLevels=4, Prices=[3, 9, 12], Vols=[1, 2], Kinds=["L"],
+             price_offset=high(3, 12), MaxOrders=3, MaxOps=3 if q else 4, need=("two_sided",), timeout=300)
     # through the multi-asset market (per-asset tick sizes) and through the environments (queued creations)
     mkt_gen(ck, "gen_market_grid", Ticks=(2, 3), Ops=["cap", "create", "place", "cancel"], Kinds=["L"], Prices=[9, 10, 12], Vols=[1],
             MaxOrders=2, MaxOps=3 if q else 4, need=("create_rejected", "ops_on_two_assets"), timeout=300 if q else 1500)
@@ -299,6 +394,10 @@ def c13(tier, seed):
     # market and environment level
     mkt_gen(ck, "gen_market_toggle", Ticks=(1, 1), Ops=["cap", "modify", "disable", "enable"], Kinds=["L", "M"], Prices=[10, 11], Vols=[1],
             ModPrices=[10, 11], ModVolsAbs=[-1], MaxOrders=2, MaxOps=4, need=("trading_toggled", "has_trade"), timeout=300 if q else 1500)
+    cross(ck, q, "market_toggle_reload", "off_modify")
+    # snapshots of books with trading off / on, then the switch
+    book_gen(ck, "gen_toggle_reload", Ops=["cap", "disable", "enable", "reload"], Prices=[10], Vols=[1], Kinds=["L", "M"], MaxOrders=2,
+             MaxOps=4 if q else 5, need=("op_reload", "trading_off", "has_trade", "rejected_order"), timeout=300 if q else 1500)
     env_gen(ck, "gen_env_toggle", kind="env", seeds=4 if q else 16, Ops=["new", "modify", "step", "disable", "enable"], Kinds=["L", "M"],
             Prices=[10, 11], Vols=[1], ModPrices=[10, 11], ModVolsAbs=[-1], MaxSubmits=3, MaxBatch=2, MaxSteps=2, MaxOrders=2,
             need=("trading_toggled", "has_trade", "has_modify"), timeout=300 if q else 1500)
